@@ -529,7 +529,7 @@ Record ccase := { cid : nat; c_cmd : command; c_w : world; c_cfg : jv; c_ob : ob
 Definition model_ob (c : ccase) := observe (cmd orc config_schema (c_cmd c) (c_w c) (c_cfg c)).
 Definition agrees (c : ccase) : bool := obs_agree (c_cmp c) (model_ob c) (c_ob c).
 Definition holds (c : ccase) : bool := prop_C20 orc config_schema (c_cmd c) (c_w c) (c_cfg c) (c_ob c).
-Definition bits (l : list bool) : nat := fold_left (fun a b => 2 * a + (if b then 1 else 0)) l 1.
+Definition bits (l : list bool) : nat := fold_left (fun (a : nat) (b : bool) => 2 * a + (if b then 1 else 0)) l 1.
 (* why a case disagrees: status, fields, started, written, stray (1 = equal) *)
 Definition diffinfo (c : ccase) : nat :=
   let m := model_ob c in let i := c_ob c in
@@ -698,7 +698,7 @@ PRE_JSON = "{}\n"
 
 
 def run_cli_case(case, cli, templates, keep=False):
-    d = os.path.join(W, "runs", "%05d" % case["id"])
+    d = os.path.join(W, "runs", case.get("dirname") or "%05d" % case["id"])
     shutil.rmtree(d, ignore_errors=True)
     shutil.copytree(templates[case["project"]], d)
     with open(os.path.join(d, "gleece.config.json"), "w") as f:
@@ -1167,16 +1167,26 @@ def main():
                 delp(cand["cfg"], p)
             if cand["cfg"] == cur["cfg"]:
                 continue
-            cand["id"] = 90000 + tries
+            cand["id"], cand["dirname"] = 0, "shrink%02d" % tries
             cand["text"] = render(cand["cfg"], rng, "json")
             cand["style"] = "json"
             tries += 1
             if eval_one(cand)[3]:
                 cur = cand
-        cur["id"] = 90100
+        cur["id"], cur["dirname"] = 0, "shrunk"
         cur["text"] = render(cur["cfg"], rng, "json") if isinstance(cur["cfg"], dict) else cur["text"]
         return cur
 
+    if os.environ.get("VERIF_C20_DEBUG"):
+        log("timings", timings, "obligation", obligation, "lib", len(lcases), "ldis", ldis[:10], "lpf", lpf[:10])
+        for i in ldis[:8]:
+            log("LIB-DISAGREE", lcases[i][0], lverdicts[i], ltexts[i][:300].replace("\n", " "))
+        for i in lpf[:8]:
+            log("LIB-PROPFAIL", lcases[i][0], lverdicts[i])
+        for i in cdis:
+            log("CLI-DISAGREE", i, ccases[i]["cls"], decode_bits(diffs[i], DIFF_NAMES), json.dumps(obs_summary(obs[i], runs[i]))[:1500])
+        for i in cpf:
+            log("CLI-PROPFAIL", i, ccases[i]["cls"], decode_bits(fails[i], FAIL_NAMES))
     reported = 0
     for i in cpf:
         fb = decode_bits(fails[i], FAIL_NAMES)
